@@ -810,6 +810,15 @@ func ruleAssociateFrame(c *RC) {
 	// The frame is built where the buffer handed to Conn.Write is made.
 	builder := frameBuilder(p, wr)
 	mt, _ := marshalTable(builder)
+	appended := false
+	if parts, ok := appendFrameLayout(p, wr); ok {
+		appended = true
+		if strings.Join(parts, " ") == "byte:0 BE16:len payload byte:255" {
+			c.OKH("frame@Write", wr.Pos(), "0x00 | uint16 BE length | data | 0xff (built by appending in this order)")
+		} else {
+			c.Bad("frame@Write", wr.Pos(), "UDP-associate frame writer deviates from `0x00 | uint16 length | data | 0xff`: it appends [%s]", strings.Join(parts, " "))
+		}
+	}
 	has := func(off, w int64, field string) bool {
 		for _, x := range mt {
 			if x.Off == off && x.Width == w && (field == "" || strings.HasPrefix(x.Field, field)) {
@@ -833,7 +842,9 @@ func ruleAssociateFrame(c *RC) {
 			}
 		}
 	})
-	if w0 && wl && wff {
+	if appended {
+		// judged above
+	} else if w0 && wl && wff {
 		c.OKH("frame@Write", wr.Pos(), "0x00 | uint16 BE length | data | 0xff")
 	} else {
 		c.Bad("frame@Write", wr.Pos(), "UDP-associate frame writer deviates from `0x00 | uint16 length | data | 0xff` (marker0=%v length@1=%v marker0xff=%v): [%s]", w0, wl, wff, wireKey(mt, true))
